@@ -74,6 +74,19 @@ def check_cell(acc, lib, segmap, f, seg, S, r, idset=None):
         acc.violation(f'enc-mismatch:r={r}:f={f}:seg={seg}:S={S}', f'serialize gave {idv:#018x}, layout says {want:#018x}', case)
         return idv
     acc.n['validated'] += 1
+    # the same cell written with its fields in another order (a mapping has no field order): every 5th state, three orders in turn
+    if (S + r + f) % 5 == 0:
+        order = (('resolution', 'S', 'segment', 'origin'), ('S', 'origin', 'resolution', 'segment'), ('segment', 'resolution', 'origin', 'S'))[(S + f) % 3]
+        vals = {'origin': origins[f], 'segment': seg, 'S': S, 'resolution': r}
+        try:
+            other = ser.serialize(A5Cell(**{kk: vals[kk] for kk in order}))
+        except Exception as e:
+            acc.violation(f'enc-field-order-raises:r={r}:f={f}:seg={seg}:S={S}', f'the same cell with its fields given in the order {order} raised {e!r}', dict(case, order=list(order)))
+            return idv
+        acc.n['field_order_variants'] += 1
+        if other != idv:
+            acc.violation(f'enc-field-order:r={r}:f={f}:seg={seg}:S={S}', f'the same cell with its fields given in the order {order} encodes to {other:#x} instead of {idv:#x}', dict(case, order=list(order)))
+            return idv
     # decode side
     try:
         gr = ser.get_resolution(idv)
